@@ -953,6 +953,11 @@ class ElemEngine:
                             ct = c.args[1]
                             if tag(ct) == 'agg' and path[1] < len(ct[3]) and same_obj(ct[3][path[1]]):
                                 add(av)
+                    # items are `&mut` views of obj (iter_mut / chunks_mut ..) and no write through them was read: the closure body writes in
+                    # a way that is not followed (a for_each of its own over the item) -- unknown, not absent
+                    if not any(pth and pth[0] == 0 for pth, _ in effs) and self.iter_touches(it, same_obj) and \
+                            any(tag(z) == 'call' and short(z[1]) in ('iter_mut', 'chunks_mut', 'chunks_exact_mut', 'split_at_mut') for z in subterms_(it)):
+                        add(top('for_each over &mut items with no write read'))
                     # the closure captures obj by `&mut` but no write through that capture was read (an inner loop over rows of the captured
                     # buffer, say): its effect on obj is unknown, not absent
                     ct = c.args[1]
